@@ -18,6 +18,23 @@ class ScriptEnd(Exception):
     """Raised by ScriptedTransport.read when the harness has no more lines (harness-made)."""
 
 
+FAULT_CLASSES = ("TransportFailedError", "TransportError", "HarnessTransportError")
+
+
+def make_fault(name: str, attempt: int) -> BaseException:
+    """An injected transport failure.  A transport reports failure with the documented TransportError family: the base
+    class itself (what the Transport docstrings name), TransportFailedError (what the built-in transports raise) or a
+    subclass a third-party transport defines."""
+    from aiomysensors.exceptions import TransportError
+
+    text = f"injected write fault at attempt {attempt}"
+    if name == "TransportError":
+        return TransportError(text)
+    if name == "HarnessTransportError":
+        return type("HarnessTransportError", (TransportError,), {})(text)
+    return TransportFailedError(text)
+
+
 class ScriptedTransport(Transport):
     """A Transport owned by the harness.
 
@@ -42,6 +59,7 @@ class ScriptedTransport(Transport):
         self.connect_error: BaseException | None = None
         self.disconnect_error: BaseException | None = None
         self.yield_on_write = False
+        self.fault_class = "TransportFailedError"  # one of FAULT_CLASSES
 
     async def connect(self) -> None:
         self.events.append(("connect", None, None))
@@ -77,7 +95,7 @@ class ScriptedTransport(Transport):
                 self.fail_predicate and self.fail_predicate(attempt, decoded_message))
         if fail:
             self.events.append(("write-fail", attempt, decoded_message))
-            raise TransportFailedError(f"injected write fault at attempt {attempt}")
+            raise make_fault(self.fault_class, attempt)
         self.events.append(("write-ok", attempt, decoded_message))
         self.writes.append(decoded_message)
 
